@@ -8,6 +8,7 @@ package main
 
 import (
 	"fmt"
+	"go/ast"
 	"go/types"
 	"sort"
 	"strings"
@@ -838,6 +839,7 @@ func (w *shapeWalker) roots() (nBodies int) {
 func runC07(r *Report) {
 	r.Explanation = "For every schema position reachable from the operations of every instantiated program (response bodies, request bodies, component schemas, nested properties, array items, allOf members) the Go type standing there is followed from the body site (response Write → writeJSON(w, r.Body); parser → Decode(&params.Body)) and its generated writer key table is compared with the schema of the independent oracle: exact key set (spelling from the spec, not from the Go field), required ⇔ written unconditionally, optional ⇔ written only under the Maybe guard, null-capable ⇔ nullable: true, Go base type admissible for (type, format), nil slice normalised to [] where the array is not nullable, allOf $ref members delegated into the SAME object (no nested braces) and inline members merged, additionalProperties ⇔ map entries written under their own keys. Table-level for all values; scalar value formats are encoding/json's."
 	r.Rule("C07/shape", "writer key table and Go types at every schema position equal the schema (keys, required/optional, nullable, base types, allOf merge, additionalProperties)")
+	r.Rule("C07/write-json", "the JSON body helper func(io.Writer, any, string) is exactly json.NewEncoder(w).Encode(v) (+ error logging): one document per response, nothing buffered or shared")
 	r.Rule("C07/body-sites", "every documented JSON response body is written with writeJSON(w, r.Body) and every JSON request body is decoded into params.Body; the types at those sites are the ones judged")
 	r.Assumptions = append(r.Assumptions, "formats of scalar VALUES (float/time rendering) and which oneOf variant a value validates against are not decided", "a required non-nullable `any`/ref field can still encode null when its Go value is a nil RawMessage/map — a value-level fact outside the table", "programs bounded by the corpus")
 	s3, progs := loadJSONPrograms(r, "C07")
@@ -847,6 +849,30 @@ func runC07(r *Report) {
 	defer s3.Close()
 	nPos, nBodies := 0, 0
 	for _, jp := range progs {
+		// a package-level func(io.Writer, any, string) is the JSON body helper: exactly one
+		// document, straight from the encoder onto the response writer
+		for _, f := range jp.P.Pkg.Syntax {
+			for _, d := range f.Decls {
+				fd, ok := d.(*ast.FuncDecl)
+				if !ok || fd.Recv == nil && fd.Body == nil || fd.Recv != nil {
+					continue
+				}
+				sig, _ := jp.P.Pkg.TypesInfo.Defs[fd.Name].Type().(*types.Signature)
+				if sig == nil || sig.Params().Len() != 3 || sig.Results().Len() != 0 {
+					continue
+				}
+				p0, p1, p2 := sig.Params().At(0).Type(), sig.Params().At(1).Type(), sig.Params().At(2).Type()
+				it, isAny := p1.Underlying().(*types.Interface)
+				if types.TypeString(p0, nil) != "io.Writer" || !isAny || it.NumMethods() != 0 || !types.Identical(p2, types.Typ[types.String]) {
+					continue
+				}
+				if why := writeJSONShapeOf(jp.P, fd); why != "" {
+					r.Undecided("C07/write-json", jp.P.Name+":"+fd.Name.Name, s3.pos(fd.Pos()), why+": the body must reach the writer as the single document json.NewEncoder(w).Encode(v) produces (buffers, pools or extra writes can emit more or less than one document)")
+				} else {
+					r.OK("C07/write-json", jp.P.Name+":"+fd.Name.Name, s3.pos(fd.Pos()), "")
+				}
+			}
+		}
 		w := &shapeWalker{r: r, s3: s3, jp: jp, mode: "C07", seen: map[string]bool{}}
 		nBodies += w.roots()
 		nPos += w.nPos
